@@ -442,6 +442,10 @@ func run(cfg *hx.RunCfg) (*hx.Result, error) {
 			// are still run against the tree, because they are the search for a concrete failing input
 			siteErr = err
 			res.Notes = append(res.Notes, "site table unavailable: "+err.Error())
+			// the three known races fire on every run, so OracleFailures is never empty on this tree and siteErr alone
+			// would go unnoticed: record a case no object of the proved table matches, so that the driver always sees
+			// the broken tie as a correspondence mismatch
+			res.AddCase(fmt.Sprintf("SiteCase %s 0 0 0", hx.CoqString("site-table-unavailable")), map[string]any{"site_table_error": err.Error()})
 		}
 	}
 	if cfg.Replay == "" {
